@@ -357,12 +357,26 @@ and, when the step fails, the buffer exactly as it was: a failing step leaves no
 so the theorems of this file speak about the code as it reads now.  An edit of one of these Go functions that changes its
 meaning — or leaves the translated subset — breaks this obligation. -/
 theorem C09_pipeline_translated (icfg : ICfg) (buf : Serve.Buf) (reqHdrs : HdrMap) (origin acrm : Bytes) (debug : Bool) :
-    Gen.Pipeline.processOriginForPreflight icfg buf origin [origin] = GoRt.result buf (Serve.processOriginForPreflight (Serve.modelDec icfg) icfg buf origin) ∧
-    Gen.Pipeline.processACRPN icfg buf reqHdrs = GoRt.result buf (Serve.processACRPN icfg buf reqHdrs) ∧
-    Gen.Pipeline.processACRM icfg buf acrm [acrm] = GoRt.result buf (Serve.processACRM icfg buf acrm) ∧
-    Gen.Pipeline.processACRH icfg buf reqHdrs debug = GoRt.result buf (Serve.processACRH (Serve.modelDec icfg) icfg buf reqHdrs debug) :=
+    Gen.GoSrc.processOriginForPreflight icfg buf origin [origin] = GoRt.result buf (Serve.processOriginForPreflight (Serve.modelDec icfg) icfg buf origin) ∧
+    Gen.GoSrc.processACRPN icfg buf reqHdrs = GoRt.result buf (Serve.processACRPN icfg buf reqHdrs) ∧
+    Gen.GoSrc.processACRM icfg buf acrm [acrm] = GoRt.result buf (Serve.processACRM icfg buf acrm) ∧
+    Gen.GoSrc.processACRH icfg buf reqHdrs debug = GoRt.result buf (Serve.processACRH (Serve.modelDec icfg) icfg buf reqHdrs debug) :=
   Translated.pipeline_eq icfg buf reqHdrs origin acrm debug
 
 #print axioms C09_pipeline_translated
+
+
+/-- **C09 (translated preflight handler).** `handleCORSPreflight` — the Vary step, the four steps in Fetch order, what is copied
+from the buffer and which status is written when a step fails (both debug modes), `maps.Copy`, the max-age header and the success
+status — is translated from /repo's middleware.go on every run (Gen/Pipeline.lean, calling the translated steps); for every internal
+configuration, response headers already present, request headers, Origin and ACRM values and debug mode it produces the header map and
+the status of the hand-written model.  It contains no call of the wrapped handler (the translator has no construct for one). -/
+theorem C09_preflight_translated (icfg : ICfg) (h reqHdrs : HdrMap) (origin acrm : Bytes) (debug : Bool) :
+    Gen.GoSrc.handleCORSPreflight icfg h reqHdrs origin [origin] acrm [acrm] debug =
+      ((Serve.handleCORSPreflight (Serve.modelDec icfg) icfg h reqHdrs origin acrm debug).hdrs,
+       (Serve.handleCORSPreflight (Serve.modelDec icfg) icfg h reqHdrs origin acrm debug).status) :=
+  Translated.handleCORSPreflight_eq icfg h reqHdrs origin acrm debug
+
+#print axioms C09_preflight_translated
 
 end Cors
